@@ -79,6 +79,27 @@ def child_probe(ctx, cls, attr, t, rng):
     back = out[1]
     if wtags or not H.inst_equal(ctx, obj, back):
         return ("%s.%s:not-read-back" % (cn, attr), "%s: child %s is not read back into the same attribute (unknown-tag warnings %s)" % (cn, attr, wtags), {"cls": cn, "attr": attr, "xml": ET_str(tree)})
+    # a character-data child holding only white space is still a value: built, written under its tag and read back (at the model level:
+    # the text parser would strip it)
+    if type(t) in (T.String, T.NagString):
+        blank = rng.choice([" ", "\t", "\u00a0", "\u3000", "\u2003", " \n"])
+        try:
+            with warnings.catch_warnings():
+                warnings.simplefilter("ignore")
+                obj2 = copy.deepcopy(obj)
+                setattr(obj2, attr, blank)
+                held = obj2.__dict__.get(attr)
+        except Exception:
+            held = None
+        if held == blank:
+            try:
+                tree2 = obj2.to_etree()
+            except Exception as e:
+                return ("%s.%s:blank-value-cannot-be-written" % (cn, attr), "%s.to_etree() with %s=%r raised %r" % (cn, attr, blank, e), {"cls": cn, "attr": attr, "blank": blank})
+            out2, w2 = H.run_from_etree(ctx, tree2)
+            if out2[0] != "ok" or w2 or not H.inst_equal(ctx, obj2, out2[1]):
+                return ("%s.%s:blank-value-not-read-back" % (cn, attr), "%s holding %s=%r: written, then %s" % (cn, attr, blank, out2[1] if out2[0] != "ok" else "read back differently (warnings %s)" % w2),
+                        {"cls": cn, "attr": attr, "blank": blank})
     return None
 
 
